@@ -1,4 +1,5 @@
 import TakVerif.Proofs.Road
+import TakVerif.Impl.Result
 
 /-! Readable restatements: adjacency in coordinates, the rule-book outcome in terms of `RoadPath`,
 and the part of the invariant that `analyze`/`New` establish. -/
@@ -107,15 +108,56 @@ theorem new_wf (cfg : Cfg) (p : Pos) (h : Pos.new cfg = .ok p) : WFBoard p := by
       injection h with h
       subst h
       have hn : SizeOK cfg.size := by unfold SizeOK; omega
-      refine ⟨hn, rfl, ?_, ?_, ?_, ?_, ?_, ?_⟩
+      refine ⟨⟨hn, rfl, ?_, ?_, ?_, ?_⟩, ?_, ?_⟩
       · intro i hi; simp at hi
-      · intro i hi; simp at hi
-      · simp
       · intro i hi; simp at hi
       · simp
       · have h0 : ∀ c : Consts, floodGroups c 0#64 = some [] := by
           intro c; unfold floodGroups floodGroupsFuel; simp
         unfold Pos.analyze
         simp [h0]
+      · intro i hi; simp at hi
+      · simp
+
+/-! ### `ptn.ResultFromGame` -/
+theorem result_refines (p : Pos) (wf : RoadWF p) :
+    p.resultFromGame = match Spec.result (Spec.abs p) with
+      | some r => .ok r
+      | none => .error (.panic "ResultFromGame: game is not over") := by
+  have h := winDetails_refines p wf
+  unfold Pos.resultFromGame Spec.result
+  rw [← h]
+  simp only [toOutcome]
+  generalize p.winDetails = d
+  rcases d with ⟨over, reason, winner, wfl, bfl⟩
+  cases over <;> cases reason <;> cases winner <;> simp <;> rfl
+
+/-! ### size of a group -/
+
+/-- `Big g` (two distinct squares) is "popcount at least 2" -/
+theorem big_iff_cnt (g : W) : Big g ↔ 2 ≤ cnt g := by
+  constructor
+  · rintro ⟨i, j, hij, hi, hj⟩
+    have hg : g ≠ 0#64 := fun e => by rw [e] at hi; simp at hi
+    obtain ⟨k, _, hk, _, hnext, _⟩ := exists_lowest g hg
+    have h1 := cnt_and_pred g hg
+    have hg' : g &&& (g - 1#64) ≠ 0#64 := by
+      intro e
+      have e1 := congrArg (fun v => BitVec.getLsbD v i) e
+      have e2 := congrArg (fun v => BitVec.getLsbD v j) e
+      simp only [hnext, hi, hj, Bool.true_and, BitVec.getLsbD_zero, decide_eq_false_iff_not,
+        Decidable.not_not] at e1 e2
+      omega
+    have h2 := cnt_and_pred _ hg'
+    omega
+  · intro h
+    have hg : g ≠ 0#64 := fun e => by rw [e, cnt_zero] at h; omega
+    obtain ⟨k, _, hk, _, hnext, _⟩ := exists_lowest g hg
+    have h1 := cnt_and_pred g hg
+    have hg' : g &&& (g - 1#64) ≠ 0#64 := fun e => by rw [e, cnt_zero] at h1; omega
+    obtain ⟨j, hj⟩ := exists_bit_of_ne_zero _ hg'
+    rw [hnext] at hj
+    simp only [Bool.and_eq_true, decide_eq_true_eq] at hj
+    exact ⟨j, k, hj.2, hj.1, hk⟩
 
 end Roads
